@@ -254,6 +254,13 @@ theorem window_tolerance_sound (st en : Option Int) (x : Ev D)
   · have := h.1 a ha; have := lt_floorMs_add a; omega
   · have := h.2 z hz; have := floorMs_le z; omega
 
+/-- C03 edge tolerance of `Bucket.get`, both directions -/
+theorem window_tolerance (st en : Option Int) (x : Ev D) :
+    (inWindow st en x = true → inWindow (roundWin st en).1 (roundWin st en).2 x = true) ∧
+    (inWindow (roundWin st en).1 (roundWin st en).2 x = true →
+      (∀ a, st = some a → a - 1000 < x.ts + x.dur) ∧ (∀ z, en = some z → x.ts ≤ z + 1000)) :=
+  ⟨window_tolerance_complete st en x, window_tolerance_sound st en x⟩
+
 /-- for a millisecond-aligned event start (every stored event: the `Event` constructor floors to
     ms) the end edge is strict unless the requested end is itself aligned -/
 theorem window_tolerance_sound_aligned (st en : Option Int) (x : Ev D) (hx : x.ts % 1000 = 0)
@@ -506,6 +513,22 @@ example : getEvents exSt "a" (-1) (some 5000) (some 6000)
 example : getEvents exSt "a" 1 (some 5000) (some 6000) = [⟨some 3, 5000, 0, ()⟩] := by decide
 example : getEventcount exSt "a" (some 5000) (some 6000) = 2 := by decide
 
+/-- the hypotheses of `count_window_mono` are satisfiable (bucket "b") -/
+example : getEventcount exSt "b" (some 6500) (some 6600) ≤ getEventcount exSt "b" none (some 7000) := by
+  apply count_window_mono
+  · constructor
+    · intro a' h; cases h
+    · intro z' h; cases h; exact ⟨6600, rfl, by decide⟩
+  · intro m es hv
+    have : view exSt "b" = some (default, [⟨some 2, 6000, 1000, ()⟩]) := by decide
+    rw [this] at hv; cases hv; decide
+
+/-- `get_complete_partial` applied: event 1 of bucket "a" -/
+example : (⟨some 1, 5000, 4000, ()⟩ : Ev Unit) ∈ getEvents exSt "a" (-1) none (some 6000) :=
+  get_complete_partial exSt "a" (-1) (by decide) none (some 6000) default
+    [⟨some 1, 5000, 4000, ()⟩, ⟨some 3, 5000, 0, ()⟩, ⟨some 4, -9000, 1000, ()⟩] (by decide) _
+    (by decide) (by decide) (fun _ => by decide)
+
 /-- the counterexample to unconditional completeness: an event ending before 1970 is stored in
     the bucket, lies in the (unbounded) window, and is not returned -/
 theorem get_complete_counterexample :
@@ -728,4 +751,411 @@ example : getEvents exSt "a" 1 (some 5000) (some 6000) = .ok [⟨some 2, 5000, 0
 example : getEventcount exSt "a" (some 5000) (some 6000) = .ok 2 := rfl
 example : getEvents exSt "c" 1 none none = .error .keyError := rfl
 
+/-- `get_complete` applied: event 0 of bucket "a" -/
+example : ∃ r, getEvents exSt "a" (-1) (some 5000) (some 6000) = .ok r ∧
+    (⟨some 0, 5000, 4000, ()⟩ : Ev Unit) ∈ r :=
+  get_complete exSt "a" (-1) (by decide) _ _ default _ rfl _ (by decide) (by decide)
+
 end Aw.Store.Memory
+
+/-! ## peewee -/
+namespace Aw.Store.Peewee
+open Aw Aw.Store Aw.PySort
+variable {D : Type}
+
+/-- the `bucket_keys` cache agrees with the bucket table (established by `refresh`, which every
+    bucket-table mutation ends with) -/
+def CacheOk (s : St D) : Prop :=
+  ∀ b, keyOf s b = (s.buckets.find? (fun r => r.bid = b)).map (·.key)
+
+theorem cacheOk_refresh (s : St D) : CacheOk (refresh s) := by
+  intro b
+  simp [keyOf, refresh, List.find?_map, Function.comp_def]
+
+theorem cacheOk_empty : CacheOk ({} : St D) := by intro b; rfl
+
+theorem view_some {s : St D} (hc : CacheOk s) {b : String} {m : Meta} {es : List (Ev D)}
+    (h : view s b = some (m, es)) : ∃ k, keyOf s b = some k ∧ es = (rowsOf s k).map toEv := by
+  rw [hc b]; unfold view at h
+  cases hf : s.buckets.find? (fun r => r.bid = b) with
+  | none => simp [hf] at h
+  | some r =>
+    simp only [hf, Option.some.injEq, Prod.mk.injEq] at h
+    exact ⟨r.key, rfl, h.2.symm⟩
+
+theorem keyOf_some {s : St D} (hc : CacheOk s) {b : String} {k : Int} (h : keyOf s b = some k) :
+    ∃ m, view s b = some (m, (rowsOf s k).map toEv) := by
+  rw [hc b] at h; unfold view
+  cases hf : s.buckets.find? (fun r => r.bid = b) with
+  | none => simp [hf] at h
+  | some r' =>
+    simp only [hf, Option.map_some, Option.some.injEq] at h
+    subst h; exact ⟨r'.md, rfl⟩
+
+theorem view_none_iff {s : St D} (hc : CacheOk s) (b : String) : view s b = none ↔ keyOf s b = none := by
+  rw [hc b]; unfold view
+  cases hf : s.buckets.find? (fun r => r.bid = b) <;> simp
+
+/-- `_where_range` is the closed-interval test plus the 24 h prefilter on the start -/
+theorem inRange_iff (st en : Option Int) (r : ERow D) :
+    inRange st en r = true ↔
+      inWindow st en (toEv r) = true ∧ (∀ a, st = some a → a - 86400000000 ≤ r.ts) := by
+  rw [inWindow_iff]
+  cases st <;> cases en <;> simp [inRange, toEv] <;> omega
+
+/-- the rows a read selects, in result order (before limit and clipping) -/
+def selected (s : St D) (k : Int) (st en : Option Int) : List (ERow D) :=
+  (sortBy (fun r => r.ts) ((rowsOf s k).filter (inRange st en)).reverse).reverse
+
+/-- closed form of `get_events` when the bucket key is known -/
+theorem getEvents_eq (s : St D) (b : String) (k : Int) (hk : keyOf s b = some k)
+    (limit : Int) (st en : Option Int) (dec : Ev D → Ev D) :
+    getEvents s b limit st en dec =
+      .ok ((applyLimit limit (selected s k st en)).map (fun r => clip st en (dec (toEv r)))) := by
+  unfold getEvents
+  by_cases h0 : limit = 0
+  · subst h0; simp [applyLimit_zero]
+  · simp only [h0, if_false, hk]
+    by_cases hneg : limit < 0
+    · rw [applyLimit_neg _ hneg]; simp only [hneg, if_true]; rfl
+    · rw [applyLimit_pos _ (by omega)]; simp only [hneg, if_false]; rfl
+
+/-- `limit == 0` returns `[]` before the bucket is even looked up -/
+theorem get_limit_zero (s : St D) (b : String) (st en : Option Int) (dec : Ev D → Ev D) :
+    getEvents s b 0 st en dec = .ok [] := by simp [getEvents]
+
+/-- the only error is `KeyError`, raised exactly when the cache has no key for the bucket and
+    `limit ≠ 0` -/
+theorem getEvents_error_iff_key (s : St D) (b : String) (limit : Int)
+    (st en : Option Int) (dec : Ev D → Ev D) (e : Err) :
+    getEvents s b limit st en dec = .error e ↔ e = .keyError ∧ limit ≠ 0 ∧ keyOf s b = none := by
+  cases hk : keyOf s b with
+  | none =>
+    unfold getEvents
+    by_cases h0 : limit = 0
+    · simp [h0]
+    · simp only [h0, if_false, hk]
+      constructor
+      · intro h; cases h; simp [h0]
+      · rintro ⟨rfl, _⟩; rfl
+  | some k => rw [getEvents_eq s b k hk]; simp
+
+/-- … i.e. exactly when the bucket is missing (and `limit ≠ 0`) -/
+theorem getEvents_error_iff (s : St D) (hc : CacheOk s) (b : String) (limit : Int)
+    (st en : Option Int) (dec : Ev D → Ev D) (e : Err) :
+    getEvents s b limit st en dec = .error e ↔ e = .keyError ∧ limit ≠ 0 ∧ view s b = none := by
+  rw [view_none_iff hc]; exact getEvents_error_iff_key s b limit st en dec e
+
+theorem getEventcount_eq (s : St D) (b : String) (k : Int) (hk : keyOf s b = some k)
+    (st en : Option Int) :
+    getEventcount s b st en = .ok ((rowsOf s k).filter (inRange st en)).length := by
+  unfold getEventcount; simp only [hk]
+
+theorem getEventcount_error_iff (s : St D) (hc : CacheOk s) (b : String)
+    (st en : Option Int) (e : Err) :
+    getEventcount s b st en = .error e ↔ e = .keyError ∧ view s b = none := by
+  rw [view_none_iff hc]
+  cases hk : keyOf s b with
+  | none =>
+    unfold getEventcount; simp only [hk]
+    constructor
+    · intro h; cases h; simp
+    · rintro ⟨rfl, _⟩; rfl
+  | some k => rw [getEventcount_eq s b k hk]; simp
+
+theorem mem_selected (s : St D) (k : Int) (st en : Option Int) (row : ERow D) :
+    row ∈ selected s k st en ↔ row ∈ rowsOf s k ∧ inRange st en row = true := by
+  unfold selected
+  rw [List.mem_reverse, mem_sortBy, List.mem_reverse, List.mem_filter]
+
+/-- the selected rows are ordered by timestamp descending -/
+theorem selected_sorted (s : St D) (k : Int) (st en : Option Int) :
+    List.Pairwise (fun a b => b.ts ≤ a.ts) (selected s k st en) := by
+  unfold selected
+  rw [List.pairwise_reverse]
+  exact sortBy_sorted (fun r : ERow D => r.ts) _
+
+theorem length_selected (s : St D) (k : Int) (st en : Option Int) :
+    (selected s k st en).length = ((rowsOf s k).filter (inRange st en)).length := by
+  unfold selected
+  rw [List.length_reverse, length_sortBy, List.length_reverse]
+
+/-! ### clipping -/
+
+theorem clip_none_none (e : Ev D) : clip none none e = e := rfl
+
+theorem clip_id (st en : Option Int) (e : Ev D) : (clip st en e).id = e.id := by
+  cases st <;> cases en <;> grind [clip]
+
+theorem clip_data (st en : Option Int) (e : Ev D) : (clip st en e).data = e.data := by
+  cases st <;> cases en <;> grind [clip]
+
+/-- clipping moves the start to the window start if it lies before it, and not otherwise -/
+theorem clip_ts (st en : Option Int) (e : Ev D) :
+    (clip st en e).ts = match st with | some a => max e.ts a | none => e.ts := by
+  cases st <;> cases en <;> grind [clip]
+
+/-- … and the end to the window end if it lies after it -/
+theorem clip_fin (st en : Option Int) (e : Ev D) :
+    (clip st en e).ts + (clip st en e).dur =
+      match en with | some z => min (e.ts + e.dur) z | none => e.ts + e.dur := by
+  cases st <;> cases en <;> grind [clip]
+
+/-- the clipped event is the stored event cut to the window and nothing else -/
+theorem peewee_clip_exact (st en : Option Int) (e : Ev D) :
+    (clip st en e).id = e.id ∧ (clip st en e).data = e.data ∧
+    ((clip st en e).ts = match st with | some a => max e.ts a | none => e.ts) ∧
+    ((clip st en e).ts + (clip st en e).dur =
+      match en with | some z => min (e.ts + e.dur) z | none => e.ts + e.dur) :=
+  ⟨clip_id st en e, clip_data st en e, clip_ts st en e, clip_fin st en e⟩
+
+/-- both bounds given: `[clip.ts, clip.ts + clip.dur] = [max e.ts a, min (e.ts + e.dur) z]` -/
+theorem peewee_clip_exact_both (a z : Int) (e : Ev D) :
+    (clip (some a) (some z) e).ts = max e.ts a ∧
+    (clip (some a) (some z) e).ts + (clip (some a) (some z) e).dur = min (e.ts + e.dur) z :=
+  ⟨clip_ts (some a) (some z) e, clip_fin (some a) (some z) e⟩
+
+/-- the cut is a genuine interval when the event reaches into a non-empty window -/
+theorem clip_dur_nonneg (st en : Option Int) (e : Ev D) (hd : 0 ≤ e.dur)
+    (hw : inWindow st en e = true) (hne : ∀ a z, st = some a → en = some z → a ≤ z) :
+    0 ≤ (clip st en e).dur := by
+  have h1 := clip_ts st en e
+  have h2 := clip_fin st en e
+  rw [inWindow_iff] at hw
+  cases st with
+  | none =>
+    cases en with
+    | none => simp only at h1 h2; omega
+    | some z => have := hw.2 z rfl; simp only at h1 h2; omega
+  | some a =>
+    cases en with
+    | none => have := hw.1 a rfl; simp only at h1 h2; omega
+    | some z =>
+      have := hw.1 a rfl; have := hw.2 z rfl; have := hne a z rfl rfl
+      simp only at h1 h2; omega
+
+/-- an event inside the window is returned as it is -/
+theorem clip_inside (st en : Option Int) (e : Ev D)
+    (h1 : ∀ a, st = some a → a ≤ e.ts) (h2 : ∀ z, en = some z → e.ts + e.dur ≤ z) :
+    clip st en e = e := by
+  cases st with
+  | none =>
+    cases en with
+    | none => rfl
+    | some z => have := h2 z rfl; simp only [clip]; split <;> first | omega | rfl
+  | some a =>
+    have := h1 a rfl
+    cases en with
+    | none => simp only [clip]; split <;> first | omega | rfl
+    | some z =>
+      have := h2 z rfl
+      simp only [clip]
+      repeat' split
+      all_goals first | omega | rfl
+
+theorem clip_ts_mono (st en : Option Int) (x y : Ev D) (h : x.ts ≤ y.ts) :
+    (clip st en x).ts ≤ (clip st en y).ts := by
+  rw [clip_ts, clip_ts]
+  cases st with
+  | none => exact h
+  | some a => simp only; omega
+
+/-! ### the read theorems -/
+
+/-- soundness: every returned event is the clipping of a stored event of the bucket that lies in
+    the window and passes the 24 h prefilter -/
+theorem get_sound (s : St D) (hc : CacheOk s) (b : String) (limit : Int) (st en : Option Int)
+    (dec : Ev D → Ev D) (r : List (Ev D)) (hr : getEvents s b limit st en dec = .ok r)
+    (x : Ev D) (hx : x ∈ r) :
+    ∃ m es e, view s b = some (m, es) ∧ e ∈ es ∧ x = clip st en (dec e) ∧
+      inWindow st en e = true ∧ (∀ a, st = some a → a - 86400000000 ≤ e.ts) := by
+  cases hk : keyOf s b with
+  | none =>
+    by_cases h0 : limit = 0
+    · subst h0; rw [get_limit_zero] at hr; cases hr; cases hx
+    · have := (getEvents_error_iff s hc b limit st en dec .keyError).mpr
+        ⟨rfl, h0, (view_none_iff hc b).mpr hk⟩
+      rw [this] at hr; cases hr
+  | some k =>
+    rw [getEvents_eq s b k hk] at hr
+    cases hr
+    obtain ⟨row, hrow, rfl⟩ := List.mem_map.mp hx
+    obtain ⟨hmem, hin⟩ := (mem_selected s k st en row).mp (mem_of_mem_applyLimit hrow)
+    obtain ⟨m, hv⟩ := keyOf_some hc hk
+    have hw := (inRange_iff st en row).mp hin
+    exact ⟨m, _, toEv row, hv, List.mem_map_of_mem hmem, rfl, hw.1, hw.2⟩
+
+/-- completeness: without a limit every stored event in the window that is no longer than 24 h
+    is returned (clipped) -/
+theorem get_complete (s : St D) (hc : CacheOk s) (b : String) (limit : Int) (hl : limit < 0)
+    (st en : Option Int) (dec : Ev D → Ev D) (m : Meta) (es : List (Ev D))
+    (hv : view s b = some (m, es)) (e : Ev D) (he : e ∈ es) (hw : inWindow st en e = true)
+    (hd : e.dur ≤ 86400000000) :
+    ∃ r, getEvents s b limit st en dec = .ok r ∧ clip st en (dec e) ∈ r := by
+  obtain ⟨k, hk, rfl⟩ := view_some hc hv
+  refine ⟨_, getEvents_eq s b k hk limit st en dec, ?_⟩
+  rw [applyLimit_neg _ hl]
+  obtain ⟨row, hrow, rfl⟩ := List.mem_map.mp he
+  refine List.mem_map.mpr ⟨row, (mem_selected s k st en row).mpr ⟨hrow, ?_⟩, rfl⟩
+  refine (inRange_iff st en row).mpr ⟨hw, fun a ha => ?_⟩
+  have := ((inWindow_iff st en (toEv row)).mp hw).1 a ha
+  have h1 : (toEv row).ts = row.ts := rfl
+  have h2 : (toEv row).dur = row.dur := rfl
+  omega
+
+/-- the stored events behind the result are ordered by timestamp descending -/
+theorem get_sorted_stored (s : St D) (hc : CacheOk s) (b : String) (limit : Int) (hl : limit ≠ 0)
+    (st en : Option Int) (dec : Ev D → Ev D) (r : List (Ev D))
+    (hr : getEvents s b limit st en dec = .ok r) :
+    ∃ m es l, view s b = some (m, es) ∧ r = l.map (fun e => clip st en (dec e)) ∧
+      (∀ e ∈ l, e ∈ es) ∧ List.Pairwise (fun a b => b.ts ≤ a.ts) l := by
+  cases hk : keyOf s b with
+  | none =>
+    have := (getEvents_error_iff s hc b limit st en dec .keyError).mpr
+      ⟨rfl, hl, (view_none_iff hc b).mpr hk⟩
+    rw [this] at hr; cases hr
+  | some k =>
+    rw [getEvents_eq s b k hk] at hr
+    cases hr
+    obtain ⟨m, hv⟩ := keyOf_some hc hk
+    refine ⟨m, _, (applyLimit limit (selected s k st en)).map toEv, hv, ?_, ?_, ?_⟩
+    · rw [List.map_map]; rfl
+    · intro e he
+      obtain ⟨row, hrow, rfl⟩ := List.mem_map.mp he
+      exact List.mem_map_of_mem ((mem_selected s k st en row).mp (mem_of_mem_applyLimit hrow)).1
+    · rw [List.pairwise_map]
+      exact List.Pairwise.sublist (applyLimit_sublist _ _) (selected_sorted s k st en)
+
+/-- clipping can only raise a timestamp to the window start, so the returned (clipped) list is
+    still ordered by timestamp descending (for any row decoder that leaves timestamps alone) -/
+theorem get_sorted (s : St D) (b : String) (limit : Int) (st en : Option Int)
+    (dec : Ev D → Ev D) (hdec : ∀ e, (dec e).ts = e.ts) (r : List (Ev D))
+    (hr : getEvents s b limit st en dec = .ok r) :
+    List.Pairwise (fun a b => b.ts ≤ a.ts) r := by
+  cases hk : keyOf s b with
+  | none =>
+    by_cases h0 : limit = 0
+    · subst h0; rw [get_limit_zero] at hr; cases hr; exact List.Pairwise.nil
+    · unfold getEvents at hr; simp [h0, hk] at hr
+  | some k =>
+    rw [getEvents_eq s b k hk] at hr
+    cases hr
+    rw [List.pairwise_map]
+    refine List.Pairwise.sublist (applyLimit_sublist _ _) ((selected_sorted s k st en).imp ?_)
+    intro x y h
+    apply clip_ts_mono
+    rw [hdec, hdec]; exact h
+
+theorem get_limit_pos (s : St D) (b : String) (limit : Int) (hl : 0 < limit) (st en : Option Int)
+    (dec : Ev D → Ev D) :
+    getEvents s b limit st en dec =
+      (getEvents s b (-1) st en dec).map (fun l => l.take limit.toNat) := by
+  cases hk : keyOf s b with
+  | none =>
+    have h0 : limit ≠ 0 := by omega
+    unfold getEvents; simp [h0, hk]; rfl
+  | some k =>
+    rw [getEvents_eq s b k hk, getEvents_eq s b k hk, applyLimit_pos_eq_take _ hl, List.map_take]
+    rfl
+
+theorem get_limit_neg (s : St D) (b : String) (limit : Int) (hl : limit < 0) (st en : Option Int)
+    (dec : Ev D → Ev D) :
+    getEvents s b limit st en dec = getEvents s b (-1) st en dec := by
+  cases hk : keyOf s b with
+  | none =>
+    have h0 : limit ≠ 0 := by omega
+    unfold getEvents; simp [h0, hk]
+  | some k =>
+    rw [getEvents_eq s b k hk, getEvents_eq s b k hk, applyLimit_neg _ hl,
+        applyLimit_neg _ (by omega)]
+
+/-- the count is the number of events an unlimited read with the same arguments returns
+    (and fails exactly when that read fails) -/
+theorem count_eq (s : St D) (b : String) (st en : Option Int) (dec : Ev D → Ev D) :
+    getEventcount s b st en = (getEvents s b (-1) st en dec).map List.length := by
+  cases hk : keyOf s b with
+  | none => unfold getEventcount getEvents; simp [hk]; rfl
+  | some k =>
+    rw [getEvents_eq s b k hk, getEventcount_eq s b k hk, applyLimit_neg _ (by omega)]
+    show _ = Except.ok _
+    rw [List.length_map, length_selected]
+
+/-- the count is the number of stored events in the window passing the 24 h prefilter -/
+theorem count_eq_spec (s : St D) (hc : CacheOk s) (b : String) (st en : Option Int)
+    (m : Meta) (es : List (Ev D)) (hv : view s b = some (m, es)) :
+    getEventcount s b st en = .ok (es.filter (fun e =>
+      inWindow st en e && (match st with | some a => decide (a - 86400000000 ≤ e.ts) | none => true))).length := by
+  obtain ⟨k, hk, rfl⟩ := view_some hc hv
+  rw [getEventcount_eq s b k hk, List.filter_map, List.length_map]
+  congr 2
+  apply List.filter_congr
+  intro row _
+  have h := inRange_iff st en row
+  show inRange st en row = ((fun e => inWindow st en e &&
+    (match st with | some a => decide (a - 86400000000 ≤ e.ts) | none => true)) ∘ toEv) row
+  simp only [Function.comp]
+  have hts : (toEv row).ts = row.ts := rfl
+  rw [Bool.eq_iff_iff, h, Bool.and_eq_true, hts]
+  cases st <;> simp
+
+/-- widening the window never lowers the count -/
+theorem count_window_mono (s : St D) (b : String) (st en st' en' : Option Int)
+    (hw : winWider st' en' st en) (n : Nat) (hn : getEventcount s b st en = .ok n) :
+    ∃ n', getEventcount s b st' en' = .ok n' ∧ n ≤ n' := by
+  cases hk : keyOf s b with
+  | none => unfold getEventcount at hn; simp [hk] at hn
+  | some k =>
+    rw [getEventcount_eq s b k hk] at hn
+    cases hn
+    refine ⟨_, getEventcount_eq s b k hk st' en', length_filter_mono _ _ _ ?_⟩
+    intro row _ h
+    rw [inRange_iff] at h ⊢
+    refine ⟨inWindow_mono hw _ h.1, fun a' ha' => ?_⟩
+    obtain ⟨a, ha, hle⟩ := hw.1 a' ha'
+    have := h.2 a ha
+    omega
+
+/-- the count for the requested window never exceeds the number of events `Bucket.get` (which
+    reads the rounded window) returns -/
+theorem count_le_get_rounded (s : St D) (b : String) (st en : Option Int) (dec : Ev D → Ev D)
+    (n : Nat) (hn : getEventcount s b st en = .ok n) :
+    ∃ r, getEvents s b (-1) (roundWin st en).1 (roundWin st en).2 dec = .ok r ∧ n ≤ r.length := by
+  obtain ⟨n', h1, h2⟩ := count_window_mono s b st en _ _ (roundWin_wider st en) n hn
+  rw [count_eq s b _ _ dec] at h1
+  cases hg : getEvents s b (-1) (roundWin st en).1 (roundWin st en).2 dec with
+  | error e => rw [hg] at h1; cases h1
+  | ok r => rw [hg] at h1; cases h1; exact ⟨r, rfl, h2⟩
+
+def exSt : St Unit :=
+  refresh { buckets := [⟨1, "a", default⟩, ⟨2, "b", default⟩],
+            events := [⟨1, 1, 4000, 3000, ()⟩, ⟨2, 2, 6000, 1000, ()⟩, ⟨3, 1, 5000, 0, ()⟩,
+                       ⟨4, 1, 1000, 1000, ()⟩, ⟨5, 1, -90000000000, 100000000000, ()⟩] }
+
+example : CacheOk exSt := cacheOk_refresh _
+example : getEvents exSt "a" (-1) (some 5000) (some 6000)
+    = .ok [⟨some 3, 5000, 0, ()⟩, ⟨some 1, 5000, 1000, ()⟩] := rfl
+example : getEvents exSt "a" 1 (some 5000) (some 6000) = .ok [⟨some 3, 5000, 0, ()⟩] := rfl
+example : getEventcount exSt "a" (some 5000) (some 6000) = .ok 2 := rfl
+example : getEvents exSt "c" 1 none none = .error .keyError := rfl
+example : getEvents exSt "c" 0 none none = .ok [] := rfl
+
+/-- `get_complete` applied: event 1 of bucket "a" is returned cut to the window -/
+example : ∃ r, getEvents exSt "a" (-1) (some 5000) (some 6000) = .ok r ∧
+    clip (some 5000) (some 6000) (⟨some 1, 4000, 3000, ()⟩ : Ev Unit) ∈ r :=
+  get_complete exSt (cacheOk_refresh _) "a" (-1) (by decide) _ _ id default _ rfl _
+    (by decide) (by decide) (by decide)
+
+/-- the 24 h bound of `get_complete` is needed: event 5 of bucket "a" spans the whole window but
+    starts more than 24 h before it, and is not returned -/
+theorem get_complete_needs_24h :
+    ∃ (s : St Unit) (m : Meta) (es : List (Ev Unit)) (e : Ev Unit),
+      CacheOk s ∧ view s "a" = some (m, es) ∧ e ∈ es ∧ inWindow (some 5000) (some 6000) e = true ∧
+      getEvents s "a" (-1) (some 5000) (some 6000) = .ok [⟨some 3, 5000, 0, ()⟩, ⟨some 1, 5000, 1000, ()⟩] ∧
+      clip (some 5000) (some 6000) e ∉ [(⟨some 3, 5000, 0, ()⟩ : Ev Unit), ⟨some 1, 5000, 1000, ()⟩] :=
+  ⟨exSt, default,
+   [⟨some 1, 4000, 3000, ()⟩, ⟨some 3, 5000, 0, ()⟩, ⟨some 4, 1000, 1000, ()⟩,
+    ⟨some 5, -90000000000, 100000000000, ()⟩],
+   ⟨some 5, -90000000000, 100000000000, ()⟩,
+   cacheOk_refresh _, rfl, by decide, by decide, rfl, by decide⟩
+
+end Aw.Store.Peewee
